@@ -273,6 +273,11 @@ func (g *Gen) newChk(t *Tbl) *Chk {
 		}
 	} else {
 		k.Expr = fmt.Sprintf("length(%s) > %d", q(c.Name), g.T.Draw("check-bound", 2))
+		// A literal that reads like a constraint of its own: the word, a parenthesis, a column name.
+		if g.T.Chance("check-literal-reads-like-a-check", 1, 4) {
+			k.Expr = fmt.Sprintf("%s <> 'needs check (%s)'", q(c.Name), c.Name)
+			g.use("check-literal-reads-like-a-check")
+		}
 	}
 	// Two constraints with the same expression are one constraint to SQLite and to Atlas.
 	for _, o := range t.Chk {
